@@ -220,6 +220,11 @@ type Target struct {
 	// enclosing block, up to the end of that block (Rest = falling out of the block; "" when the
 	// block is the function body and must end in a return).
 	After bool
+	// Until (with After): the translated statements stop BEFORE the first following statement
+	// whose source text starts with Until (it must exist); falling out there = Rest.
+	Until string
+	// NakedRet: the Gallina term of a `return` without results (functions without result values).
+	NakedRet string
 	// Extensions of records.go: declared non-local lvalues (Go source text -> Gallina variable),
 	// type assertions (asserted type -> {is-function, value-function}), the nil test of
 	// interface values, and "only the value of this composite-literal key".
@@ -227,6 +232,18 @@ type Target struct {
 	Asserts map[string][2]string
 	ErrNil  string
 	KeyVal  string
+	// Extensions of mapext.go: maps as state variables (Go source text of a map-typed expression
+	// -> Gallina variable of type gmap, Base/GoMap.v) and a format for every returned value
+	// ("%s" = the translated result expression), e.g. "(peersByHostPort, %s)".
+	Maps   map[string]string
+	RetFmt string
+	// VoidRet: for a function without results: the Gallina term a naked `return` (and falling off
+	// the end of the body) yields, e.g. the final value of a state variable.
+	VoidRet string
+	// NakedRetW (C10 dispatch targets): as NakedRet, but the term is passed through c.ret (result
+	// wrapping of the target), and for a whole-function target it is also what falling off the end
+	// of a result-less body stands for.
+	NakedRetW string
 }
 
 type fnctx struct {
@@ -246,6 +263,9 @@ func newFnctx(t *translator, tg *Target, fd *ast.FuncDecl) *fnctx {
 
 func (c *fnctx) hint(e ast.Node) (string, bool) {
 	s, ok := c.tg.Hints[c.t.src(e)]
+	if !ok {
+		s, ok = c.hintMap(e) // mapext.go
+	}
 	return s, ok
 }
 
@@ -436,6 +456,9 @@ func (c *fnctx) expr(e ast.Expr) string {
 }
 
 func (c *fnctx) ret(s string) string {
+	if c.tg.RetFmt != "" {
+		s = fmt.Sprintf(c.tg.RetFmt, s)
+	}
 	if c.tg.Panics {
 		return "(Some " + s + ")"
 	}
@@ -492,12 +515,27 @@ func (c *fnctx) stmts(list []ast.Stmt, rest string) string {
 		}
 		return pre + " " + tail()
 	}
+	if out, ok := c.stmtMap(list, rest); ok { // mapext.go
+		return out
+	}
 	if out, ok := c.stmtExt(list, rest); ok {
+		return out
+	}
+	if out, ok := c.stmtLoopExt(list, rest); ok {
 		return out
 	}
 	switch x := s.(type) {
 	case *ast.ReturnStmt:
 		if len(x.Results) == 0 {
+			if c.tg.VoidRet != "" {
+				return c.tg.VoidRet
+			}
+			if c.tg.NakedRet != "" {
+				return c.tg.NakedRet
+			}
+			if c.tg.NakedRetW != "" {
+				return c.ret(c.tg.NakedRetW)
+			}
 			failf("%s: naked return", c.t.pos(s))
 		}
 		idx := 0
@@ -838,6 +876,19 @@ func (t *translator) emitFunc(tg *Target, w *bytes.Buffer) {
 		selList = []ast.Stmt{sel}
 		if tg.After {
 			selList = t.stmtsAfter(fd, sel, tg.Func)
+			if tg.Until != "" {
+				cut := -1
+				for i, st := range selList {
+					if strings.HasPrefix(t.src(st), tg.Until) {
+						cut = i
+						break
+					}
+				}
+				if cut < 0 {
+					failf("%s: no statement of %s after the selected one starts with %q", t.pos(fd), tg.Func, tg.Until)
+				}
+				selList = selList[:cut]
+			}
 			scope = &ast.BlockStmt{List: selList}
 		}
 	}
@@ -860,7 +911,11 @@ func (t *translator) emitFunc(tg *Target, w *bytes.Buffer) {
 			body = tg.Pre + "\n  " + body
 		}
 	} else {
-		body = c.stmts(fd.Body.List, "")
+		end := tg.VoidRet
+		if tg.NakedRetW != "" && fd.Type.Results == nil {
+			end = c.ret(tg.NakedRetW)
+		}
+		body = c.stmts(fd.Body.List, end)
 	}
 	p := t.fset.Position(fd.Pos())
 	e := t.fset.Position(fd.End())
@@ -870,12 +925,21 @@ func (t *translator) emitFunc(tg *Target, w *bytes.Buffer) {
 		se := t.fset.Position(sel.End())
 		if tg.After {
 			fmt.Fprintf(w, "   the statements AFTER the statement at lines %d-%d (to the end of its block), which starts with: %s\n   falling out of the block  =>  %s\n", sp.Line, se.Line, tg.Stmt, tg.Rest)
+			if tg.Until != "" {
+				fmt.Fprintf(w, "   up to (not including) the statement that starts with: %s\n", tg.Until)
+			}
 		} else {
 			fmt.Fprintf(w, "   statement at lines %d-%d starting with: %s\n   falling out of it  =>  %s\n", sp.Line, se.Line, tg.Stmt, tg.Rest)
 		}
 		if tg.Pre != "" {
 			fmt.Fprintf(w, "   prefix: %s\n", tg.Pre)
 		}
+		if tg.NakedRet != "" {
+			fmt.Fprintf(w, "   return without results  =>  %s\n", tg.NakedRet)
+		}
+	}
+	if tg.NakedRet != "" {
+		fmt.Fprintf(w, "   a return without results (and the end of a body without results)  =>  %s\n", tg.NakedRet)
 	}
 	if kv != nil {
 		fmt.Fprintf(w, "   only the value of the composite-literal entry at line %d: %s\n", t.fset.Position(kv.Pos()).Line, t.src(kv))
@@ -893,6 +957,15 @@ func (t *translator) emitFunc(tg *Target, w *bytes.Buffer) {
 	}
 	if tg.ErrNil != "" {
 		fmt.Fprintf(w, "   nil test of interface values: %s\n", tg.ErrNil)
+	}
+	for _, k := range sortedKeys(tg.Maps) {
+		fmt.Fprintf(w, "   map (state variable): %s  =>  %s\n", k, tg.Maps[k])
+	}
+	if tg.VoidRet != "" {
+		fmt.Fprintf(w, "   a return without value / the end of the body yields  %s\n", tg.VoidRet)
+	}
+	if tg.RetFmt != "" {
+		fmt.Fprintf(w, "   every returned value v is  %s\n", strings.ReplaceAll(tg.RetFmt, "%s", "v"))
 	}
 	keys := []string{}
 	for k := range tg.Hints {
@@ -1273,6 +1346,28 @@ func main() {
 	nfs, nfp := frameSitesSafe(&w, *repo, root)
 	writeIfChanged(filepath.Join(*out, "GenFrameSites.v"), w.Bytes())
 	fmt.Printf("go2v: GenFrameSites.v %d NewFrame sites, %d FramePool implementations\n", nfs, nfp)
+
+	// GenLockSkel.v (C16): lock / return skeletons of the get-or-create functions (mapext.go)
+	w.Reset()
+	fmt.Fprintf(&w, header, *repo)
+	nsk := root.lockSkeletons(&w)
+	writeIfChanged(filepath.Join(*out, "GenLockSkel.v"), w.Bytes())
+	fmt.Printf("go2v: GenLockSkel.v %d lock skeletons\n", nsk)
+
+	// GenLockSites.v (C04): read / write sites of the mutex-protected state with the locks held (locksites.go)
+	w.Reset()
+	fmt.Fprintf(&w, header, *repo)
+	nls, nlw := root.lockSitesSafe(&w, *repo)
+	writeIfChanged(filepath.Join(*out, "GenLockSites.v"), w.Bytes())
+	fmt.Printf("go2v: GenLockSites.v %d access sites of %d protected fields, %d lock wrappers\n", nls, len(lkFields), nlw)
+
+	// GenFrameUse.v (C12): uses of a frame relative to its hand-over, per function (frameuse.go)
+	w.Reset()
+	fmt.Fprintf(&w, header, *repo)
+	fmt.Fprintf(&w, "From Verif Require Import Spec.FrameUseSpec.\n\n")
+	nfu, nfx := root.frameUseSafe(&w, *repo)
+	writeIfChanged(filepath.Join(*out, "GenFrameUse.v"), w.Bytes())
+	fmt.Printf("go2v: GenFrameUse.v %d frame-use rows, %d hand-over sites\n", nfu, nfx)
 
 	// GenTypedBuf.v, GenMessages.v ...: byte-buffer methods and message codecs (methods.go)
 	emitMethodFiles(all, *repo, *out)
